@@ -31,7 +31,8 @@ pub fn enter(outer: &Scope, e: &A) -> Scope {
 /// can an element name in namespace `ns` be written in this scope (without adding declarations)?
 pub fn elem_expressible(scope: &Scope, ns: &str) -> bool {
     if ns.is_empty() {
-        !scope.contains_key("")
+        // under a default namespace the serialiser undeclares it on the element's own start tag (xmlns="")
+        true
     } else {
         scope.values().any(|u| u == ns)
     }
@@ -47,6 +48,10 @@ pub fn serialisable(a: &A, outer: &Scope) -> bool {
         K::Elem => {
             let s = enter(outer, a);
             if !elem_expressible(&s, &a.ns) {
+                return false;
+            }
+            if a.ns.is_empty() && a.nss.iter().any(|d| d.name.is_empty() && !d.ns.is_empty()) {
+                // its own start tag would put it into that namespace: no spelling exists
                 return false;
             }
             if !a.attrs.iter().all(|at| attr_expressible(&s, &at.ns)) {
